@@ -327,8 +327,13 @@ class CurveFitting(object):
         sy = self._T
         sx2 = self._Q
         sy2 = self._W
-        r = ((n * sxy - sx * sy) / (sqrt(n * sx2 - sx * sx)
-                                    * sqrt(n * sy2 - sy * sy)))
+        vx = n * sx2 - sx * sx
+        vy = n * sy2 - sy * sy
+        # Degenerate data (one of the variables is constant): the variance is
+        # zero up to the rounding errors of its two terms
+        if vx <= 1e-13 * n * sx2 or vy <= 1e-13 * n * sy2:
+            raise ZeroDivisionError("Input data leads to a division by zero")
+        r = (n * sxy - sx * sy) / (sqrt(vx) * sqrt(vy))
         # Rounding may leave |r| a few units of the last places above 1
         return max(-1.0, min(1.0, r))
 
@@ -359,8 +364,9 @@ class CurveFitting(object):
         sy = self._T
         sx2 = self._Q
         d = n * sx2 - sx * sx
-
-        if abs(d) < TOL:
+        # Degenerate data (all abscissae equal): the determinant is zero up to
+        # the rounding errors of its two terms
+        if abs(d) <= 1e-13 * n * sx2:
             raise ZeroDivisionError("Input data leads to a division by zero")
 
         a = (n * sxy - sx * sy) / d
@@ -396,8 +402,9 @@ class CurveFitting(object):
         v = self._V
         q2 = q * q
         d = n * q * s + 2.0 * p * q * r - q2 * q - p * p * s - n * r * r
-
-        if abs(d) < TOL:
+        # Degenerate data (fewer than three different abscissae): the
+        # determinant is zero up to the rounding errors of its terms
+        if abs(d) <= 1e-13 * abs(n * q * s):
             raise ZeroDivisionError("Input data leads to a division by zero")
 
         a = (n * q * v + p * r * t + p * q * u
